@@ -289,7 +289,9 @@ func (ch c18) runCase(c *core.Ctx, env *hs.Env, L int, rng *core.Rng, idx int) {
 			}
 			if rng.Intn(4) == 0 {
 				// a text of a few bytes: the whole message body is smaller than a machine word or two
-				q = core.Pick(rng, []string{"BEGIN", "END", "COMMIT", "x", "go", "SELECT1", "ROLLBAC"})
+				// (among them the statements connection poolers and drivers send on their own: a server may
+				// answer those itself, but what it has handed out before stays what it was)
+				q = core.Pick(rng, []string{"BEGIN", "END", "COMMIT", "x", "go", "SELECT1", "ROLLBAC", "DISCARD ALL", "discard all;", "RESET ALL", "DEALLOCATE ALL", "ROLLBACK", "SELECT 1", ";", "UNLISTEN *", "CLOSE ALL", "SET client_encoding TO 'UTF8'", "SHOW transaction_read_only"})
 				c.Count("tiny_query_texts", 1)
 			}
 			st.sentQ[q] = true
